@@ -105,3 +105,8 @@ package service
 // list - is a write)
 //@ func (*Service).ProcessRequest
 //@   assert[C18+C09.parents_are_read_only_without_set] at "s.System.GetParents(ctx, location)": !has(m, "set")
+
+// C20/C14: limits and timeouts set through /api/sys/loccontrol reach the locations that are already open: open locations hold
+// the pointer to the default location control, so the request is decoded into that very object, not into a copy.
+//@ func (*Service).ProcessRequest
+//@   assert[C20+C14.loccontrol_updates_the_shared_control_in_place] at "call:Unmarshal@\"/api/sys/loccontrol\"": is(callarg(1), *core.Control) && callarg(1).(*core.Control) == ctl.DefaultLocControl
